@@ -438,11 +438,13 @@ WConnected(w, ok, err, version, nh, greetOk, greetVersion, greetCut) ==
      LET w2 == Chk(w1, greetOk, "C18", "connect succeeded although the greeting is not valid") IN
      LET w3 == Chk(w2, ~greetOk \/ version = greetVersion, "C18", "protocol version is not the greeting's version string verbatim") IN
      LET w4 == Chk(w3, ~w.hasPw \/ w.phase = "authed", "C18", "connect succeeded before the server accepted the password") IN
-     Chk(w4, w.lastK = "idle", "C05", "connect returned before idle was written")
+     Chk(w4, w.lastK = "idle" \/ w.fault # "", "C05", "connect returned before idle was written")
   ELSE
      LET w2 == Chk(w1, ~(greetOk /\ ~w.hasPw /\ w.fault = ""), "C18", "connect failed although the greeting is valid") IN
      \* greetCut: "" (a complete line was received), "viable" (stream ended inside an otherwise valid greeting), "either"
-     LET w3 == IF ~greetOk /\ greetCut = "" THEN Chk(w2, err = "invalid", "C18", "malformed greeting not reported as invalid message")
+     \* (error-kind clauses only when the transport itself did not fail during the handshake: after rerr / werr the I/O error is a correct report)
+     LET w3 == IF w.fault \in {"rerr", "werr"} THEN w2
+               ELSE IF ~greetOk /\ greetCut = "" THEN Chk(w2, err = "invalid", "C18", "malformed greeting not reported as invalid message")
                ELSE IF ~greetOk /\ greetCut = "viable" THEN Chk(w2, err = "io:UnexpectedEof", "C18", "stream ending inside the greeting not reported as unexpected EOF")
                ELSE IF ~greetOk THEN Chk(w2, err \in {"invalid", "io:UnexpectedEof"}, "C18", "bad greeting reported neither as invalid message nor as unexpected EOF")
                ELSE w2 IN
